@@ -437,3 +437,22 @@ def edited_externals(ctx, rng, n: int) -> Iterator[Tuple[str, Callable]]:
 
         for step in range(4):
             yield f"edited external module #{k} step {step}", thunk
+
+        # ... and a design still written against the ports the module had BEFORE an edit (ill-formed by then: refused, or at least
+        # never exported as a package whose instance and declaration disagree)
+        em2 = h.ExternalModule(name=f"EditedOld{next(_uid)}", domain="hved", port_list=[h.Input(name="a"), h.Output(name="z")], paramtype=h.HasNoParams)
+
+        def thunk_old(em2=em2, how=k % 3):
+            old_ports = [(p.name, p.width) for p in em2.port_list]
+            if how == 0:
+                em2.port_list.append(h.Inout(name="sub"))
+            elif how == 1:
+                em2.port_list[0].name = "a_renamed"
+            else:
+                em2.port_list.pop()
+            m = h.Module(name=f"EdOld{next(_uid)}")
+            conns = {n_: m.add(h.Signal(width=w), name=f"n_{n_}") for n_, w in old_ports}
+            m.add(em2()(**conns), name="x")
+            return h.to_proto(m)
+
+        yield f"design written against the ports of external module #{k} before its port list was edited", thunk_old
